@@ -236,6 +236,33 @@ func (w *Workload) GenDocCmd(r *model.Rand, big bool) Base {
 	for len(d.Insts) < 300 && o.MaxInsts == 900 {
 		d.Insts = append(d.Insts, model.GenDoc(r, o).Insts...)
 	}
+	if w.Edge && r.Chance(1, 25) {
+		// a chord that lacks a field, or has it null / of another type
+		i := r.Intn(len(d.Insts))
+		if d.Insts[i].Chord != nil {
+			raw := model.Pick(r, []string{
+				"- chord:\n    name: \"m\"\n  values:\n    - \"1\"\n",
+				"- chord:\n    degree: ~\n    name: \"\"\n  values:\n    - \"1\"\n",
+				"- chord:\n    degree: \"1\"\n  values:\n    - \"1\"\n",
+				"- chord: {}\n  values:\n    - \"1\"\n",
+				"- chord: ~\n  values:\n    - \"1\"\n",
+				"- chord:\n    degree: \"1\"\n    name: \"\"\n    base: ~\n  values:\n    - \"1\"\n",
+				"- chord:\n    degree: [1]\n    name: \"\"\n  values:\n    - \"1\"\n",
+				"- chord:\n    degree: \"1\"\n    name: \"\"\n  values: \"1\"\n",
+				"- chord:\n    degree: \"1\"\n    name: \"\"\n  values:\n    - ~\n",
+				"- chord:\n    degree: \"1\"\n    name: \"\"\n  values:\n    - \"1\"\n  meta: ~\n",
+				"- chord:\n    degree: \"1\"\n    name: \"\"\n  values:\n    - \"1\"\n  meta:\n    txt: ~\n",
+			})
+			b0 := Base{Argv: []string{"write", model.Pick(r, []string{"parse", "event", "conv"})}, Input: []byte(d.YAML(0) + raw), InputArg: true, Class: "doc", Tracks: 1}
+			if b0.Argv[1] == "conv" {
+				b0.Argv = append(b0.Argv, "-c", "cmt")
+			}
+			if r.Chance(1, 4) {
+				b0.Argv = []string{"write"}
+			}
+			return b0
+		}
+	}
 	if r.Chance(1, 12) {
 		// degrees far outside anything playable
 		i := r.Intn(len(d.Insts))
